@@ -1,4 +1,9 @@
 /*
+ * NOT REGISTERED in spec.py: CBMC's symbolic execution of the real extent.c at depth 1 (heap leaf buffers, symbolic
+ * entry pointers into i_block / leaf buffers, recursion of ext2fs_extent_delete) did not get past the second iteration of
+ * the punch loop in 10 minutes for the 1+1 layout.  Kept as the starting point for a later attempt; punchwalk.c is the
+ * registered harness for the walk.
+ *
  * C09/punchext: hole punching / truncation of an EXTENT-mapped file whose tree has DEPTH 1:
  * the REAL ext2fs_punch() -> ext2fs_punch_extent() -> punch_extent_blocks() (punch.c) on the REAL
  * extent.c (open2 / get / goto2 / replace / insert / delete / fix_parents / update_path).
